@@ -29,19 +29,17 @@ def one(spec):
     ID, K = parts[0], parts[1]
     DK = parts[2] if len(parts) > 2 else str(int(K) + 2)
     src = Path(f"/tmp/seed3/{ID}/_out/change{K}")
-    wt = Path(f"/tmp/evalwt-{ID}-{K}")
+    wt = Path(f"/tmp/seed3/{ID}")  # the demos assert that `pde` is imported from this very worktree
     out = Path(f"/verif/seeded/{ID}-{DK}")
     meta = {"property": ID, "change": int(DK), "batch": 3, "source": str(src)}
     patch, demo = src / "patch.diff", src / "demo.py"
     assert patch.exists() and demo.exists(), f"{src}: patch.diff / demo.py missing"
-    sh(f"git -C /repo worktree remove --force {wt}")
-    rc, o = sh(f"git -C /repo worktree add -q --detach {wt} HEAD")
-    assert rc == 0, o
+    rc, o = sh("git status --porcelain --untracked-files=no", cwd=wt)
+    assert rc == 0 and o.strip() == "", f"{wt} is not pristine: {o}"
+    old = {}
+    if out.joinpath("meta.json").exists():
+        old = json.loads(out.joinpath("meta.json").read_text())
     try:
-        (wt / "_out" / f"change{K}").mkdir(parents=True)
-        for f in src.iterdir():
-            if f.is_file() and f.suffix in (".py", ".json", ".txt"):
-                shutil.copy(f, wt / "_out" / f"change{K}" / f.name)
         wenv = dict(os.environ, PYTHONPATH=str(wt))
         demo_cmd = f"{PY} _out/change{K}/demo.py"
         rc0, o0 = sh(demo_cmd, cwd=wt, env=wenv, timeout=3600)
@@ -54,6 +52,8 @@ def one(spec):
         else:
             rc1, o1 = sh(demo_cmd, cwd=wt, env=wenv, timeout=3600)
             meta["demo_patched"] = {"rc": rc1, "tail": o1.strip().splitlines()[-4:]}
+            if not run_suite and old.get("suite_patched"):
+                meta["suite_patched"] = old["suite_patched"]
             if run_suite:
                 t = time.time()
                 rc2, o2 = sh(f"{PY} -m pytest -q -p no:cacheprovider --timeout=900 -n {nproc} tests", cwd=wt, env=wenv, timeout=10800)
@@ -63,7 +63,11 @@ def one(spec):
             tmp = tempfile.mkdtemp(prefix=f"seedchk-{ID}-{K}-")
             try:
                 repo = tmp + "/repo"
-                subprocess.check_call(["rsync", "-a", "--exclude", ".git", "--exclude", "__pycache__", "--exclude", "_out", str(wt) + "/", repo + "/"])
+                subprocess.check_call(["rsync", "-a", "--exclude", ".git", "--exclude", "__pycache__", "--exclude", "_out", "/repo/", repo + "/"])
+                rcp, op = sh(f"git apply --unsafe-paths --directory {repo} {patch}", cwd="/")
+                if rcp != 0:
+                    rcp, op = sh(f"patch -s -p1 -d {repo} -i {patch}")
+                meta["patch_applies_to_repo_head"] = rcp == 0
                 env = dict(os.environ, PDELINT_NO_EVIDENCE="1", PDELINT_REPLAY_DIR=tmp + "/replay", PDELINT_REPO=repo)
                 fired = {}
                 procs = {f"C{n:02d}": subprocess.Popen(["bin/check", f"C{n:02d}", "--tier", "quick"], cwd="/verif", env=env, stdout=subprocess.PIPE, stderr=subprocess.STDOUT, text=True) for n in range(1, 21)}
@@ -80,8 +84,8 @@ def one(spec):
             finally:
                 shutil.rmtree(tmp, ignore_errors=True)
     finally:
-        sh(f"git -C /repo worktree remove --force {wt}")
-    valid = meta.get("patch_applies") and meta["demo_pristine"]["rc"] == 0 and meta.get("demo_patched", {}).get("rc") == 1 and (not run_suite or meta.get("suite_patched", {}).get("rc") == 0)
+        sh("git checkout -- .", cwd=wt)
+    valid = meta.get("patch_applies") and meta["demo_pristine"]["rc"] == 0 and meta.get("demo_patched", {}).get("rc") == 1 and meta.get("suite_patched", {}).get("rc") == 0
     meta["valid_seed"] = bool(valid)
     meta["verif_commit_at_evaluation"] = sh("git -C /verif rev-parse --short HEAD")[1].strip()
     out.mkdir(parents=True, exist_ok=True)
